@@ -177,4 +177,13 @@ def check(ctx):
     for pp in returns(it3.run_function(qp)):
         rd |= {e.data["key"] for e in pp.events if e.kind == "read_sub" and it3.to_nf(e.data["base"]) == nf.sym("params")}
     ctx.check(rd == KEYS, "C18-b", qp + ":parameter names read", P.func(qp).where(), "the comparison plot reads exactly tau, M and p_initial", signature="keys read " + ",".join(sorted(rd)))
+    # ---- C18-e the forward model the objective relies on: the objective constructs its reservoir with the *initial* pressure
+    # in the frac-face slot and hands the real history to simulate() - so the simulated state (level 0 included) must come
+    # from the schedule alone (the boundary-row / initial-node / schedule clauses of C01-b)
+    from .c01 import check_boundary_row
+
+    try:
+        check_boundary_row(ctx, "C18-e")
+    except AnalysisError as e:
+        ctx.notes.append(f"C18-e not evaluated: {e}")
     ctx.floor("C18", len(ctx.obligs), 30, "fit wiring obligations")
